@@ -127,8 +127,10 @@ def build(cipher, mac, kdf, rounds, salt_len, phrase, cfg, layout, data_cipher=N
     if key_kind:
         dk = (B64_BYTES[key_kind] * 11)[:B.KEYLEN[data_cipher]]
     right, rblob = B.pair_text(phrase, kdf, cipher, rounds, salt, mac, data_cipher, dk, B.det_bytes("iv1", 16))
+    sameid = layout.endswith("-sameid")  # the pairs carry the same phrase id (ids are labels, not keys)
+    layout = layout[:-7] if sameid else layout
     wrong, _ = B.pair_text(phrase + "#other", kdf, cipher, rounds, salt, wrong_mac or mac, data_cipher, B.det_bytes("otherkey", B.KEYLEN[data_cipher]),
-                           B.det_bytes("iv2", 16), pid="other")
+                           B.det_bytes("iv2", 16), **({} if sameid else {"pid": "other"}))
     pairs = {"one": [right], "wrong-right": [wrong, right], "right-wrong": [right, wrong], "three": [wrong, right, wrong]}[layout]
     data_blob = B.seal(dk, cfg.encode(), mac, B.det_bytes("iv3", 16))
     outer = [(".encoding", "UTF-8"), ("displayName", "Encrypted VM"), ("memsize", "1")]
@@ -144,6 +146,10 @@ def run_shard(shard, ctx):
         for c, m, kd, sl, pi, ln, lay in sliced(space, i, k):
             run_case({"kind": "positive", "cipher": c, "mac": m, "kdf": kd, "rounds": 1, "salt": sl, "phrase": pi, "len": ln,
                       "layout": lay}, ctx)
+        if i == 0:
+            for c, m, kd, lay in itertools.product(CIPHERS, MACS, KDFS, ("wrong-right-sameid", "right-wrong-sameid", "three-sameid")):
+                run_case({"kind": "positive", "cipher": c, "mac": m, "kdf": kd, "rounds": 1, "salt": 16, "phrase": 1, "len": 21,
+                          "layout": lay}, ctx)
     elif kind == "sequences":
         for c, m, kd in itertools.product(CIPHERS, MACS, KDFS):
             for seq in itertools.product("RWT", repeat=3):
